@@ -1,6 +1,7 @@
 package main
 
 import (
+	"encoding/json"
 	"flag"
 	"fmt"
 	"os"
@@ -40,7 +41,7 @@ func cmdFn(args []string) {
 	repo := fs.String("repo", "/repo", "repository")
 	verif := fs.String("verif", "/verif", "verif directory")
 	pkgs := fs.String("pkgs", "./packetmap", "package patterns (comma separated)")
-	timeout := fs.Int("timeout", 20, "per-obligation timeout (s)")
+	timeout := fs.Int("timeout", 40, "per-obligation timeout (s)")
 	dump := fs.String("dump", "", "dump the query of the obligation with this name")
 	only := fs.String("only", "", "only obligations containing this substring")
 	verbose := fs.Bool("v", false, "verbose")
@@ -51,6 +52,9 @@ func cmdFn(args []string) {
 	if err != nil {
 		fmt.Fprintln(os.Stderr, "ERROR", err)
 		os.Exit(2)
+	}
+	if b, err := os.ReadFile(*verif + "/solver_hints.json"); err == nil {
+		json.Unmarshal(b, &solverHints)
 	}
 	if *watch != "" {
 		for _, w := range strings.Split(*watch, ";") {
